@@ -299,11 +299,18 @@ func (e *ex) possible(log []rec, now int64, bound int64) bool {
 
 type effect struct {
 	n     int64
-	fails bool // the side effect reports a failure (an unreachable webhook): it has still been executed, once
+	fails bool          // the side effect reports a failure (an unreachable webhook): it has still been executed, once
+	slow  chan struct{} // non-nil: the side effect does not return before the end of the history (a hanging webhook)
+	held  *int64        // number of side effects currently held back
 }
 
 func (e *effect) Exec() error {
 	atomic.AddInt64(&e.n, 1)
+	if e.slow != nil {
+		atomic.AddInt64(e.held, 1)
+		<-e.slow
+		atomic.AddInt64(e.held, -1)
+	}
 	if e.fails {
 		return errors.New("side effect failed")
 	}
@@ -327,6 +334,7 @@ type runner struct {
 	inflight  []*request
 	baseG     int
 	nreq      int
+	held      int64        // side effects held back (hanging)
 	front     http.Handler // the entry point: a breaker that never trips, in front of cb
 }
 
@@ -433,7 +441,7 @@ func (r *runner) effects(minT, minS int64) (int64, int64) {
 func (r *runner) settle() {
 	deadline := time.Now().Add(2 * time.Second)
 	for i := 0; ; i++ {
-		if runtime.NumGoroutine() <= r.baseG+len(r.inflight) {
+		if runtime.NumGoroutine() <= r.baseG+len(r.inflight)+int(atomic.LoadInt64(&r.held)) {
 			return
 		}
 		if time.Now().After(deadline) {
@@ -512,6 +520,13 @@ func (c *cbComp) Run(h *hlib.History) ([]hlib.Mon, bool) {
 		hlib.Count("breakers_with_failing_side_effects", 1)
 	}
 	r := &runner{entered: make(chan *request), onTripped: &effect{fails: failing}, onStandby: &effect{fails: failing}}
+	if (fb+recD+cp)%3 == 1 { // another third have side effects that hang: every transition still runs its own, once
+		hang := make(chan struct{})
+		r.onTripped.slow, r.onStandby.slow = hang, hang
+		r.onTripped.held, r.onStandby.held = &r.held, &r.held
+		defer close(hang)
+		hlib.Count("breakers_with_hanging_side_effects", 1)
+	}
 	next := http.HandlerFunc(func(w http.ResponseWriter, req *http.Request) {
 		rq := req.Context().Value(reqKey{}).(*request)
 		r.entered <- rq
